@@ -132,7 +132,7 @@ fn oracle_stream(spec: &str, sched: &str, ops: &str, file: &[u8], ann: &str) -> 
     if run.reply.contains("panic") {
         return Err("C08: the stream parser panicked".into());
     }
-    let legal = sched.split(',').all(|t| t == "-" || t == "o" || t == "i" || t.starts_with('s'));
+    let legal = crate::stream::split_init_pos(sched).1.split(',').all(|t| t == "-" || t == "o" || t == "i" || t.starts_with('s'));
     // C10: an identification defect (magic, version, class, byte order vs the spec) is reported through the
     // stream parser as exactly that error, with the bytes found — whatever follows the sixteen bytes
     if legal && file.len() >= 16 && ["any", "little", "big", "native"].contains(&spec) {
@@ -230,14 +230,16 @@ fn oracle_stream(spec: &str, sched: &str, ops: &str, file: &[u8], ann: &str) -> 
                 if sh.sh_flags & abi::SHF_COMPRESSED as u64 != 0 { continue; }
             }
         }
-        if (kind == 'T' || kind == 'N' || kind == 'Y' || kind == 'D' || kind == 'V' || kind == 'd') && involves_compressed(&f) { continue; }
+        if (kind == 'T' || kind == 'N' || kind == 'Y' || kind == 'D' || kind == 'V' || kind == 'd') && involves_compressed(&f, kind) { continue; }
         if want == got { continue; }
         let exact = matches!(kind, 'Y' | 'D' | 'V' | 'P');
         // the extended-index escape for the section-name string table is C05's clause
         let base_tag = if kind == 'T' && f.ehdr.e_shstrndx == abi::SHN_XINDEX { "C05" } else if kind == 'Y' || kind == 'D' { "C09" } else { "C07" };
         let (pw, pg) = (pieces(&want), pieces(&got));
         if pw.len() != pg.len() {
-            return Err(format!("{}: `{}`: stream `{}` vs slice `{}`", base_tag, q, &got[..got.len().min(200)], &want[..want.len().min(200)]));
+            let m = format!("{}: `{}`: stream `{}` vs slice `{}`", base_tag, q, &got[..got.len().min(200)], &want[..want.len().min(200)]);
+            if kind == 'V' { return Err(format!("{} || FAIL C13{}", m, &m[m.find(':').unwrap_or(0)..])); }
+            return Err(m);
         }
         // every differing piece of this query is reported, each under the property it belongs to
         let mut fails: Vec<String> = vec![];
@@ -259,6 +261,15 @@ fn oracle_stream(spec: &str, sched: &str, ops: &str, file: &[u8], ann: &str) -> 
                 fails.push(format!("{}: `{}`: success/failure must coincide: stream `{}` slice `{}`", tag, q, &g[..g.len().min(160)], &w[..w.len().min(160)]));
             }
         }
+        // the version queries through the stream parser are also C13's subject (wiring of the three sections), when
+        // the file has one section of each kind
+        if kind == 'V' && !fails.is_empty() {
+            let one = |t: u32| f.section_headers().map(|sh| sh.iter().filter(|s| s.sh_type == t).count() <= 1).unwrap_or(true);
+            if one(abi::SHT_GNU_VERSYM) && one(abi::SHT_GNU_VERNEED) && one(abi::SHT_GNU_VERDEF) {
+                let extra: Vec<String> = fails.iter().map(|m| format!("C13:{}", &m[m.find(':').map(|i| i + 1).unwrap_or(0)..])).collect();
+                fails.extend(extra);
+            }
+        }
         if !fails.is_empty() {
             return Err(fails.join(" || FAIL "));
         }
@@ -266,8 +277,25 @@ fn oracle_stream(spec: &str, sched: &str, ops: &str, file: &[u8], ann: &str) -> 
     Ok(())
 }
 
-fn involves_compressed(f: &ElfBytes<'_, AnyEndian>) -> bool {
-    f.section_headers().map(|t| t.iter().any(|s| s.sh_flags & abi::SHF_COMPRESSED as u64 != 0)).unwrap_or(false)
+/// does the whole-file query `kind` touch a section flagged SHF_COMPRESSED (a section of the type it looks for, or the
+/// section one of those links to)?  Only then is the query outside C07's query-level clause.
+fn involves_compressed(f: &ElfBytes<'_, AnyEndian>, kind: char) -> bool {
+    let t = match f.section_headers() { Some(t) => t, None => return false };
+    let compressed = |s: &elf::section::SectionHeader| s.sh_flags & abi::SHF_COMPRESSED as u64 != 0;
+    let types: &[u32] = match kind {
+        'Y' => &[abi::SHT_SYMTAB],
+        'D' => &[abi::SHT_DYNSYM],
+        'd' => &[abi::SHT_DYNAMIC],
+        'V' => &[abi::SHT_GNU_VERSYM, abi::SHT_GNU_VERNEED, abi::SHT_GNU_VERDEF],
+        _ => &[],
+    };
+    if kind == 'T' || kind == 'N' {
+        let idx = if f.ehdr.e_shstrndx == abi::SHN_XINDEX { t.get(0).map(|s| s.sh_link as usize).unwrap_or(0) } else { f.ehdr.e_shstrndx as usize };
+        return t.get(idx).map(|s| compressed(&s)).unwrap_or(false);
+    }
+    t.iter().filter(|s| types.contains(&s.sh_type)).any(|s| {
+        compressed(&s) || t.get(s.sh_link as usize).map(|l| compressed(&l)).unwrap_or(false)
+    })
 }
 
 /// C17: a fault surfaces as an error of the call it hits and leaves no residue
@@ -279,7 +307,7 @@ fn oracle_streamfault(spec: &str, sched: &str, ops: &str, file: &[u8]) -> V {
     }
     let cparts: Vec<&str> = clean.reply.split(';').collect();
     let fparts: Vec<&str> = faulty.reply.split(';').collect();
-    let hard = sched.split(',').any(|t| t == "f" || t == "e");
+    let hard = crate::stream::split_init_pos(sched).1.split(',').any(|t| t == "f" || t == "e");
     if !fparts[0].starts_with("open=ok") {
         // open failed: legitimate only if a hard fault was injected or the clean open fails the same way
         if !hard && fparts[0] != cparts[0] {
